@@ -21,12 +21,15 @@ NEAR = {
 }
 
 
+ZEROS = {"float32": [0.0, -0.0, 1.0], "float64": [0.0, -0.0, 1.0]}
 INF = {"float32": [float("inf"), float("-inf"), 1.0], "float64": [float("inf"), float("-inf"), 1.0]}
 
 
 def letters(dtype, small=False):
     if small == "inf" and dtype in INF:
         return INF[dtype]
+    if small == "zeros" and dtype in ZEROS:
+        return ZEROS[dtype]
     if small == "near":
         return NEAR[dtype]
     if small and dtype != "bool":
